@@ -1,7 +1,6 @@
 /-
   Finv (C04), part 9: the invariant under node creation, the value setters, `detach`, `remove`,
-  and what is built from `remove` alone (`mapRemove`, `mapClear`,
-  `removeInsignificantWhitespace`).
+  and what is built from `remove` alone (`mapRemove`, `mapClear`).
 -/
 import XotModel.Lemmas.FinvMerge
 
@@ -130,13 +129,6 @@ theorem mapClear_inv {f : Forest} (hi : f.Inv) (k : MapKind) (parent : Nat) :
   · split
     · exact hi
     · exact foldl_remove_inv (fun c : HTree => c.handle) _ hi
-
-theorem removeInsignificantWhitespace_inv {f : Forest} (hi : f.Inv) (node : Nat) :
-    (f.removeInsignificantWhitespace node).Inv := by
-  unfold removeInsignificantWhitespace
-  split
-  · exact hi
-  · exact foldl_remove_inv (fun n : Nat => n) _ hi
 
 end Forest
 end XotModel
